@@ -98,9 +98,12 @@ def finish(ctx: Ctx, started: float, stats: dict[str, int], *, seed: int = 0, em
     stale = [k for k in open_known.values() if not any(k is kk for _, kk in hit_known)]
     if not new:
         # instance-count floors: a rule that lost its subjects must not pass vacuously (a definite violation wins over this)
+        # The floor is two thirds of the count confirmed by hand on the reference tree: refactorings that merge duplicated sites into a shared
+        # helper (seen in the behaviour-preserving wave: two loops, two stores, two constructions becoming one) lower the count without
+        # making the rule vacuous; losing a third of the subjects does.
         for rule, got, minimum in ctx.minimums:
-            if got < minimum:
-                raise AnalysisError(f"{ctx.prop}-{rule}: only {got} instances found, hand-confirmed minimum is {minimum}")
+            if got < max(1, (2 * minimum + 2) // 3):
+                raise AnalysisError(f"{ctx.prop}-{rule}: only {got} instances found, the count confirmed by hand is {minimum} (floor: two thirds of it)")
 
     lines: list[str] = []
     for o, k in hit_known:
@@ -169,7 +172,7 @@ def finish(ctx: Ctx, started: float, stats: dict[str, int], *, seed: int = 0, em
             "samples": samples,
             "per_rule": per_rule,
             "analysed": {**stats, **ctx.analysed},
-            "instance_floors": [{"rule": r, "found": g, "minimum": m} for r, g, m in ctx.minimums],
+            "instance_floors": [{"rule": r, "found": g, "confirmed_by_hand": m, "floor": max(1, (2 * m + 2) // 3)} for r, g, m in ctx.minimums],
             "known_findings_reproduced": [k.raw for _, k in hit_known],
             "known_findings_not_reproduced": [k.raw for k in stale],
             "notes": ctx.notes,
